@@ -393,7 +393,8 @@ func engineCuts(f *rep.Flags, res *rep.Result) {
 // ---- engine histories -----------------------------------------------------
 
 // ops: S start on a fresh connection, T stop, W wait, D the peer drops the
-// connection, R release one held close notification, E an event round trip
+// connection, R release one held close notification, U a start while the
+// runtime cannot be reached (the dial fails)
 func genHistories(maxLen int) []string {
 	var out []string
 	var rec func(cur string)
@@ -404,7 +405,7 @@ func genHistories(maxLen int) []string {
 		if len(cur) == maxLen {
 			return
 		}
-		for _, o := range "STWDR" {
+		for _, o := range "STWDRU" {
 			rec(cur + string(o))
 		}
 	}
@@ -458,6 +459,26 @@ func runHistory(h string, gating bool) (viol []string, sig string, interesting b
 			started, live = true, true
 			sessions++
 			interesting = interesting || sessions > 1
+		case 'U':
+			if started && (live || droppedUndelivered) {
+				continue // would be refused as "already started": covered by S
+			}
+			e.dialMu.Lock()
+			e.dialErr = errors.New("connection refused")
+			e.dialMu.Unlock()
+			serr, ok := timed(func() error { return e.st.Start(ctx) })
+			e.dialMu.Lock()
+			e.dialErr = nil
+			e.dialMu.Unlock()
+			if !ok {
+				e.stuck = true
+				add("start-stuck", "%s: Start with an unreachable runtime did not return", what)
+				return
+			}
+			if serr == nil {
+				add("start-succeeded", "%s: Start succeeded although the runtime could not be reached", what)
+				return
+			}
 		case 'T':
 			if _, ok := timed(func() error { e.st.Stop(); return nil }); !ok {
 				e.stuck = true
@@ -670,7 +691,7 @@ func engineHistories(f *rep.Flags, res *rep.Result) {
 	}
 	res.Distinct = res.Evaluations
 	res.Bounds["max_history_length"] = maxLen
-	res.Bounds["alphabet"] = "S start (fresh connection), T stop, W wait, D peer drops the connection, R release one held close notification"
+	res.Bounds["alphabet"] = "S start (fresh connection), T stop, W wait, D peer drops the connection, R release one held close notification, U start while the runtime is unreachable"
 	res.Sample(map[string]any{"history": "STSR", "mode": "held-notification", "expect": "the close notification of session 1, delivered after session 2 started, does not end session 2"})
 }
 
@@ -717,7 +738,7 @@ func main() {
 		res.Rule = "the stub's connection is cut after every byte offset of the handshake (connect, register, configure, synchronize) in either direction, plus unreachable runtime, refused registration, failing configuration; oracle: Start returns within the horizon, Wait returns, the close notification fires once iff a session was established, a restart on a fresh connection works and receives events; non-trivial = every case"
 		engineCuts(f, res)
 	case "histories":
-		res.Rule = "every sequence of length <= 4 (6 thorough) over {Start, Stop, Wait, peer drop, release held notification} containing a Start, replayed on a fresh stub, in two modes (notification delivered immediately / held at a gate until released), each step checked against a reference model of the session state"
+		res.Rule = "every sequence of length <= 4 (6 thorough) over {Start, Stop, Wait, peer drop, release held notification, Start with an unreachable runtime} containing a Start, replayed on a fresh stub, in two modes (notification delivered immediately / held at a gate until released), each step checked against a reference model of the session state"
 		engineHistories(f, res)
 	case "slowcfg":
 		res.Rule = "the session is lost (peer drop / runtime request timeout) while the plugin's Configure handler is still running; every combination of loss mode x stale handler result (nil / error) x time at which the stale handler returns (before the restart / while the restart waits for its own configuration / after the restart completed); oracle: Start #1 fails within the horizon, Start #2 returns neither success nor failure while its own session's Configure handler is held, then succeeds, the plugin receives events, and a third session is not handed the stale result either"
